@@ -75,7 +75,28 @@ class SyncCase:
 MUTATIONS = ["none", "none", "dup", "unknown_wd", "bad_flags", "eod_session", "cr_session", "unexpected_type",
              "error_pdu", "bad_length", "unknown_type", "bad_version", "truncate", "fault", "hostile_len",
              "host_bits", "notify", "key_bad_flags", "cache_reset", "error_first", "garbage", "eod_v0_in_v1",
-             "zero_field", "big"]
+             "zero_field", "big", "error_nested_len", "error_nested_len"]
+
+
+def wrap_candidates(r, total):
+    """values for a 32-bit length field that take part in sums and comparisons with the PDU length `total`:
+    the consistent values and their neighbours, small values, the sign bit, and every value that wraps a 32-bit sum
+    with one of the constants the parser adds (header 8, length words 4/8/12/16, NUL)"""
+    k = r.randrange(9)
+    if k == 0:
+        return r.choice([0, 1, 4, 8, 12, 16])
+    if k == 1:
+        return max(0, total - r.choice([8, 12, 16, 17, 15, 20, 24]))
+    if k == 2:
+        return total + r.choice([-1, 0, 1, 4, 8])
+    if k in (3, 4, 5):
+        return (1 << 32) - r.randrange(0, 33)        # wraps x + c for every c the parser could add
+    if k == 6:
+        return ((1 << 32) - total + r.choice([-16, -8, 0, 8, 16])) & 0xffffffff
+    if k == 7:
+        return r.choice([0x7fffffff, 0x80000000, 0x80000001, 0xfffffff0, 0xffff0000, 0x10000, 0xffff])
+    return r.getrandbits(32)
+
 
 
 def gen_sync_case(r, force_mut=None):
@@ -166,6 +187,26 @@ def gen_sync_case(r, force_mut=None):
         txt = r.choice([b"", b"oops\0", bytes(r.getrandbits(8) for _ in range(r.randrange(0, 30)))])
         ev = r.choice([ver, 0, 1, 2])
         payload.insert(pos, P.error_report(ev, code, enc, txt))
+    elif mut == "error_nested_len":
+        # an Error Report whose total length is plausible but whose two nested length fields are hostile
+        code = r.choice([0, 1, 2, 3, 4, 5, 6, 7, 8])
+        body_len = r.choice([8, 8, 16, 24, 40, 100, 3240]) if r.random() < 0.8 else r.randrange(0, 3300)
+        total = 8 + body_len
+        body = bytearray(r.getrandbits(8) for _ in range(body_len))
+        which = r.randrange(4)
+        enc_len = wrap_candidates(r, total) & 0xffffffff if which != 1 else r.choice([0, 8, max(0, body_len - 8)])
+        if body_len >= 4:
+            body[0:4] = struct.pack(">I", enc_len)
+        if which != 0 and enc_len + 8 <= body_len:
+            txt_len = wrap_candidates(r, total - enc_len) & 0xffffffff
+            body[4 + enc_len:8 + enc_len] = struct.pack(">I", txt_len)
+        x = P.hdr(r.choice([ver, ver, 0, 1]), P.ERROR, code, total) + bytes(body)
+        if r.random() < 0.5:
+            pdus = [x]
+            payload = []
+            eod = b""
+        else:
+            payload.insert(pos, x)
     elif mut == "error_first":
         code = r.choice([2, 4, 0, 1, 3, 5])
         pdus = [P.error_report(r.choice([ver, 0, 1]), code, P.hdr(ver, 2, 0, 8), b"no\0")]
@@ -346,6 +387,21 @@ class FsmCase:
         self.meta = {}
 
 
+def last_query_version(lines, default):
+    """version byte of the last query the client sent (the version it currently speaks)"""
+    v = default
+    for l in lines:
+        w = l.split()
+        if len(w) > 4 and w[0] == "W" and len(w[4]) >= 4 and w[4][2:4] in ("01", "02"):
+            v = int(w[4][0:2], 16)
+    return v
+
+
+def openq_left(lines, openq):
+    """are scripted open() outcomes left that the client has not used yet?"""
+    return sum(1 for l in lines if l.startswith("O ")) < len(openq)
+
+
 def last_wait(lines):
     """what the client was doing when the script ran out: (state, last complete query PDU or None, recv timeout)"""
     state = None
@@ -411,19 +467,80 @@ def gen_fsm_case(r, run_model, nsteps=None, good_tail=0, cache_ver=None, faults=
         ops.append("run fsm")
         return ops
 
+    def rx_bytes():
+        return sum(len(t) - 3 for t in tape if t.startswith("rx:")) // 2
+
+    def flush_closed(mark, before, prev_lines, lines):
+        """A connection that the client closes takes its unread bytes with it.  `tape[mark:]` was appended (= sent on the
+        connection that existed then) after the run `prev_lines`; `lines` is the run with it.  If the client closed the
+        connection before it had read all of it, the unread bytes are dropped from the script (they were never seen, so
+        the past is unchanged); transport events (faults, time) stay.  returns True if something was dropped"""
+        k = 0
+        while k < len(prev_lines) and k < len(lines) and prev_lines[k] == lines[k]:
+            k += 1
+        cum = 0
+        close_at = None
+        for i, l in enumerate(lines):
+            w = l.split()
+            if len(w) > 4 and w[0] == "R" and w[4].isdigit():
+                cum += int(w[4])
+            elif w and w[0] == "C" and i >= k and cum >= before:
+                close_at = cum
+                break
+        if close_at is None:
+            return False
+        pos = before
+        dropped = False
+        out = []
+        for t in tape[mark:]:
+            if not t.startswith("rx:"):
+                out.append(t)
+                continue
+            b = bytes.fromhex(t[3:])
+            if pos + len(b) <= close_at:
+                out.append(t)
+            elif pos < close_at:
+                out.append("rx:" + b[:close_at - pos].hex())
+                dropped = True
+            else:
+                dropped = True
+            pos += len(b)
+        tape[mark:] = out
+        return dropped
+
     total = nsteps + good_tail
+    good_answers = 0
+    good_from = 0
+    prev = None
+    last_was_good_answer = False
     for step in range(total):
         lines = run_model(script())
+        if prev is not None:
+            if flush_closed(prev[0], prev[1], prev[2], lines):
+                lines = run_model(script())
+            elif last_was_good_answer:
+                good_answers += 1
+        last_was_good_answer = False
+        prev = (len(tape), rx_bytes(), lines)
         state, query, timeout = last_wait(lines)
         good = step >= nsteps
+        if step == nsteps:
+            good_from = rx_bytes()
+        lastq_ver = last_query_version(lines, cver)
+        if good and state == "ESTABLISHED" and good_answers >= 1 and not openq_left(lines, openq) :
+            break            # converged: in sync with the cache
         if state == "ESTABLISHED" or (query is None and state not in ("SYNC", "RESET")):
             # the client waits for a notification / the refresh timer
+            if good and step == total - 1:
+                break        # a change now could not be fetched before the script ends
             if good or r.random() < 0.6:
                 cache.mutate()
                 if r.random() < 0.5:
                     tape.append("block")
                 else:
-                    tape.append("rx:" + P.serial_notify(cver, cache.sess, cache.serial).hex())
+                    # a correct cache notifies in the version of the session (the version of the client's last query)
+                    nver = min(cver, lastq_ver) if (good or r.random() < 0.8) else cver
+                    tape.append("rx:" + P.serial_notify(nver, cache.sess, cache.serial).hex())
                 used.append("poll")
             else:
                 f = r.choice(["err", "intr", "closed", "long_outage", "notify_bad"])
@@ -448,6 +565,7 @@ def gen_fsm_case(r, run_model, nsteps=None, good_tail=0, cache_ver=None, faults=
                 ans = cache.answer(query, qver, ivals)
             tape += ["rx:" + x.hex() for x in chunk(r, ans)]
             used.append("good")
+            last_was_good_answer = True
             continue
         f = r.choice(faults or (FAULTS + ["good"] * 12))
         used.append(f)
@@ -523,8 +641,10 @@ def gen_fsm_case(r, run_model, nsteps=None, good_tail=0, cache_ver=None, faults=
             tape += ["rx:" + x.hex() for x in chunk(r, ans)]
         if r.random() < 0.15:
             tape.append("dt:%d" % r.choice([1, 59, 61, retry, refresh]))
+    if prev is not None and len(tape) > prev[0]:
+        flush_closed(prev[0], prev[1], prev[2], run_model(script()))
     ops = script() + ["show", "dump", "run stop", "show", "dump"]
     c.ops = ops
-    c.meta = {"used": used, "cache_p": set(cache.p), "cache_k": set(cache.k), "cver": cver, "good_tail": good_tail,
+    c.meta = {"used": used, "cache_p": set(cache.p), "cache_k": set(cache.k), "cver": cver, "good_tail": good_tail, "good_from": good_from,
               "refresh": refresh, "expire": expire, "retry": retry, "mut": "fsm"}
     return c
